@@ -450,7 +450,15 @@ fn explore_variant_histories(prop: &str, u: &U, st: &mut Stats, thorough: bool, 
 pub fn dyn_histories(thorough: bool) -> (Vec<History>, usize) {
     let depth = if thorough { 4 } else { 3 };
     let all = evo::enumerate("D", &spec::history_bases(), &spec::history_add_types(), depth, true);
-    (evo::maximal(&all, depth), depth)
+    let mut hs = evo::maximal(&all, depth);
+    if thorough {
+        // one level deeper over a reduced alphabet: two bases, two added types, fields added last
+        let bases = spec::history_bases();
+        let adds = spec::history_add_types();
+        let deep = evo::enumerate("D5", &[bases[0].clone(), bases[4].clone()], &adds[..2], 5, false);
+        hs.extend(evo::maximal(&deep, 5));
+    }
+    (hs, depth)
 }
 
 fn pairs(len: usize) -> Vec<(usize, usize)> {
